@@ -155,9 +155,11 @@ theorem sr_newRender {ex : St → BOp → St} (hex : SRex ex) {a st : St} (h : S
 theorem sr_newAsync {ex : St → BOp → St} (hex : SRex ex) {a st : St} (h : SR a st) (b : Nat) :
     SR a (newAsync ex st b) := by
   unfold newAsync
-  have h1 : SR a (setMutDepth (pushEager st b EffKind.async) (st.mutDepth + 1)) := (sr_pushEager h _ _).react rfl
+  have h1 : SR a (setMutDepth (pushEager st b EffKind.async) (st.mutDepth + 1)) :=
+    SR.react (st := pushEager st b EffKind.async) (sr_pushEager h _ _) rfl
   have h2 := sr_runScoped hex h1 st.effs.length (eagerOwner st) b
-  exact sr_finishAsync (sr_addTask (SR.react (st' := setMutDepth _ st.mutDepth) h2 rfl) _) _
+  refine sr_finishAsync (sr_addTask ?_ _) _
+  exact SR.react h2 rfl
 
 theorem sr_releaseOwner {a st : St} (h : SR a st) (o : Nat) : SR a (releaseOwner st o) := by
   unfold releaseOwner
@@ -202,7 +204,8 @@ theorem sr_immScope {a st : St} (h : SR a st) (e : Nat) : SR a (immScope st e) :
     split
     · exact SR.react (st := st.lift (regCleanup · (immTag e) false (some er.owner)))
         (h.prim (CorePrim.regCleanup _ _ _ _)) rfl
-    · exact sr_releaseOwner (h.react rfl) _
+    · refine sr_releaseOwner ?_ _
+      exact h.react rfl
 
 theorem sr_newImm {ex : St → BOp → St} (hex : SRex ex) {a st : St} (h : SR a st) (b : Nat) (sc mutf : Bool) :
     SR a (newImm ex st b sc mutf) := by
@@ -219,7 +222,8 @@ theorem sr_markSub {ex : St → BOp → St} (hex : SRex ex) (a st : St) (s : Sub
   · split
     · split
       · split
-        · exact sr_immUpdate hex (h.react rfl) _
+        · refine sr_immUpdate hex ?_ _
+          exact h.react rfl
         · exact h.react rfl
       · exact h
     · exact h
@@ -386,7 +390,9 @@ theorem sr_runHandler {a st : St} (h : SR a st) (e o hb : Nat) : SR a (runHandle
 theorem sr_endTask {a st : St} (h : SR a st) (e : Nat) : SR a (endTask st e) := by
   unfold endTask
   split
-  · next er _ => exact sr_releaseOwner (h.react rfl) er.owner
+  · next er _ =>
+    refine sr_releaseOwner ?_ er.owner
+    exact h.react rfl
   · exact h
 
 theorem sr_prepRun {a st : St} (h : SR a st) (e : Nat) (er : EffRec) : SR a (prepRun st e er) := by
@@ -424,7 +430,9 @@ theorem sr_runSeg {ex : St → BOp → St} (hex : SRex ex) {a st : St} (h : SR a
 theorem sr_finishTask {a st : St} (h : SR a st) (e : Nat) : SR a (finishTask st e) := by
   unfold finishTask
   split
-  · next er _ => exact sr_releaseOwner (h.react rfl) er.owner
+  · next er _ =>
+    refine sr_releaseOwner ?_ er.owner
+    exact h.react rfl
   · exact h
 
 theorem sr_afterSeg {a st : St} (h : SR a st) (e : Nat) : SR a (afterSeg st e) := by
@@ -439,7 +447,8 @@ theorem sr_pollTask {a st : St} (h : SR a st) (e : Nat) (er : EffRec) : SR a (po
   unfold pollTask
   split
   · exact sr_finishTask h _
-  · exact sr_afterSeg (sr_runSeg sr_execBOp (h.react rfl) _ _) _
+  · refine sr_afterSeg (sr_runSeg sr_execBOp ?_ _ _) _
+    exact h.react rfl
 
 theorem sr_pollIter {a st : St} (h : SR a st) (e : Nat) : SR a (pollIter st e) := by
   unfold pollIter
@@ -496,7 +505,9 @@ theorem sr_runIdle (n : Nat) {a st : St} (h : SR a st) : SR a (runIdle n st) := 
 theorem sr_dropHandle (a st : St) (hd : Nat) (h : SR a st) : SR a (dropHandle st hd) := by
   unfold dropHandle
   split
-  · next o _ => exact sr_releaseOwner (h.react rfl) o
+  · next o _ =>
+    refine sr_releaseOwner ?_ o
+    exact h.react rfl
   · exact h
 
 theorem sr_runWc {a st : St} (h : SR a st) (o b : Nat) : SR a (runWc st o b) := by
@@ -519,7 +530,9 @@ theorem sr_disposeEff {a st st' : St} (h : SR a st) {i : Nat} (hd : disposeEff s
     · split at hd
       · cases hd
       · split at hd
-        · simp only [Option.some.injEq] at hd; subst hd; exact sr_releaseOwner (h.react rfl) _
+        · simp only [Option.some.injEq] at hd; subst hd
+          refine sr_releaseOwner ?_ _
+          exact h.react rfl
         · simp only [Option.some.injEq] at hd; subst hd; exact h.react rfl
   · cases hd
 
